@@ -15,8 +15,15 @@ from pv.ref.refpeg import nullable, walk
 
 LITS = ["a", "b", "ab", "ba", "aa", "c", "bc", "abc", "bab"]
 CI_LITS = ["a", "ab", "B", "Ab", "abc", "aBc", "bab"]
+META_LITS = ["[", "]", "(", ")", "-", "^", ".", "*", "\\", "|", "&", "~", "{", "}", "$", "+", "?", "[a", "a]", "||", "--", "&&", "~~"]
 RANGES = [("a", "b"), ("a", "c"), ("b", "b"), ("A", "B"), ("a", "z")]
 BUILTINS = ["ASCII_ALPHA_LOWER", "ASCII_ALPHA", "ASCII_ALPHA_UPPER", "ASCII_ALPHANUMERIC", "ASCII_HEX_DIGIT", "ASCII_DIGIT"]
+# the remaining ASCII rules and a few Unicode general-category rules (the optimizer and the code generator treat those as a class of their own)
+BUILTINS_MORE = ["ASCII", "ASCII_NONZERO_DIGIT", "ASCII_BIN_DIGIT", "ASCII_OCT_DIGIT", "LETTER", "UPPERCASE_LETTER", "LOWERCASE_LETTER", "NUMBER", "DECIMAL_NUMBER", "PUNCTUATION"]
+BUILTIN_CHARS = {
+    "ASCII_DIGIT": "1", "ASCII_HEX_DIGIT": "f1a", "ASCII_ALPHA_UPPER": "A", "ASCII_ALPHA_LOWER": "ab", "ASCII": "a1 ", "ASCII_NONZERO_DIGIT": "1", "ASCII_BIN_DIGIT": "1",
+    "ASCII_OCT_DIGIT": "1", "LETTER": "aAb\u00e9", "UPPERCASE_LETTER": "A\u00c9", "LOWERCASE_LETTER": "ab\u00e9", "NUMBER": "1\u00b2", "DECIMAL_NUMBER": "1", "PUNCTUATION": "#-",
+}
 
 WS_BODIES = [
     ("str", " "),
@@ -82,6 +89,9 @@ class GrammarGen:
             return r.choice([("str", "\r"), ("str", "\n"), ("str", "\r\n"), ("str", "\u2028"), ("newline",), ("str", "a\r"), ("range", "\n", "\r")])
         if self.p.get("ci_nonascii") and c < 0.06:
             return ("ci", r.choice(["\u00df", "\u00e9", "\u01c6", "\u0130", "\u212a", "k\u00e9"]))
+        if self.p.get("more_builtins") and c < 0.03:
+            # literals that are metacharacters of the regex dialect the optimized forms are compiled to
+            return ("str", r.choice(META_LITS))
         if c < 0.45:
             return ("str", r.choice(LITS))
         if c < 0.55:
@@ -89,7 +99,7 @@ class GrammarGen:
         if c < 0.70:
             return ("range", *r.choice(RANGES))
         if c < 0.78:
-            return ("builtin", r.choice(BUILTINS))
+            return ("builtin", r.choice(BUILTINS + BUILTINS_MORE if self.p.get("more_builtins") else BUILTINS))
         if c < 0.85:
             return ("any",)
         if c < 0.89:
@@ -120,8 +130,11 @@ class GrammarGen:
                 return e
         return ("str", self.r.choice(["a", "b"]))
 
-    def skip_until(self):
+    def skip_until(self, lower=()):
         r = self.r
+        if lower and r.random() < 0.15:
+            # the stop "set" is a reference to another rule, whatever that rule's body is (a literal, a choice, another loop, something nullable)
+            return ("star", ("group", ("seq", [("not", ("ref", r.choice(lower))), ("any",)])))
         # mostly 1-3 stop strings, now and then 5-8 (implementations switch strategy with the number of stop strings)
         lits = r.sample(["a", "b", "ab", "c", "ba"], r.randint(1, 3)) if r.random() < 0.8 else r.sample(["a", "b", "ab", "c", "ba", "cc", "bc", "ca", "x", "y"], r.randint(5, 8))
         alts = [("str", s) for s in lits]
@@ -184,7 +197,7 @@ class GrammarGen:
         if c < 0.95:
             return ("not", sub())
         if c < 0.97 and self.p.get("skipuntil"):
-            return self.skip_until()
+            return self.skip_until(lower)
         if self.p.get("stack"):
             return ("push", self.nonnull(depth - 1, lower))
         return ("group", sub())
@@ -213,10 +226,12 @@ class GrammarGen:
         if tv:
             c = r.choice(tv)
             refs = self.p.get("trivia_refs") and r.random() < 0.35
+            # with rule references in the bodies the modifier of the trivia rule decides what is visible: all five are legal
+            tmods = ["_", "_", "", "$", "$", "@", "!"] if refs else ["_", "_", ""]
             if "w" in c:
-                out["WHITESPACE"] = (r.choice(["_", "_", ""]), r.choice(WS_REF_BODIES if refs and r.random() < 0.5 else WS_BODIES))
+                out["WHITESPACE"] = (r.choice(tmods), r.choice(WS_REF_BODIES if refs and r.random() < 0.5 else WS_BODIES))
             if "c" in c:
-                out["COMMENT"] = (r.choice(["_", "_", ""]), r.choice(CM_REF_BODIES if refs else CM_BODIES))
+                out["COMMENT"] = (r.choice(tmods), r.choice(CM_REF_BODIES if refs else CM_BODIES))
             for _n, (_m, x) in list(out.items()):
                 for nd in walk(x):
                     if nd[0] == "ref" and nd[1] in TRIVIA_HELPERS:
@@ -292,6 +307,8 @@ OPT_OPERANDS: list[tuple[str, tuple]] = [
     ("cic", ("ci", "c")),
     ("rng", ("range", "a", "c")),
     ("dig", ("builtin", "ASCII_DIGIT")),
+    ("uletter", ("builtin", "LETTER")),
+    ("unum", ("builtin", "NUMBER")),
     ("any", ("any",)),
     ("sl", ("ref", "sl")),
     ("sc", ("ref", "sc")),
@@ -326,6 +343,10 @@ def _opt_shapes():
         # every rule is also used as a start rule, where the callee runs with trivia enabled
         ("until_in_callee", lambda c: ("seq", [("ref", "loop"), ("opt", ("ref", "stop"))])),
         ("until_in_silent_callee", lambda c: ("seq", [("ref", "sloop"), ("opt", ("ref", "stop"))])),
+        # the stop rule of a loop is itself such a loop (defined before / after the rule that uses it): "!loop" never holds, the outer loop never iterates
+        ("until_of_loop_before", lambda c: ("seq", [("star", G_(("seq", [("not", ("ref", "lstop")), ("any",)]))), ("opt", G_(c))])),
+        ("until_of_loop_after", lambda c: ("seq", [("star", G_(("seq", [("not", ("ref", "lstop")), ("any",)]))), ("opt", G_(c)), ("opt", ("str", "z"))])),
+        ("until_of_normal_loop", lambda c: ("seq", [("star", G_(("seq", [("not", ("ref", "nlstop")), ("any",)]))), ("opt", G_(c))])),
     ]
 
 
@@ -362,6 +383,13 @@ def opt_target_case(idx: int, operands=None):
         rules["stop"] = ("_", c)
     if sname == "until_ref_normal":
         rules["nstop"] = ("", c)
+    loop_ = ("star", ("group", ("seq", [("not", ("group", c)), ("any",)])))
+    if sname == "until_of_loop_before":
+        rules = {"lstop": ("_", loop_), **rules}
+    if sname == "until_of_loop_after":
+        rules["lstop"] = ("@", loop_)
+    if sname == "until_of_normal_loop":
+        rules = {"nlstop": ("", loop_), **rules}
     used = {x[1] for _n, (_m, e) in list(rules.items()) for x in walk(e) if x[0] == "ref"}
     for h in ("sl", "sc", "nl"):
         if h in used:
@@ -369,7 +397,7 @@ def opt_target_case(idx: int, operands=None):
     if OPT_TRIVIA[tv]:
         rules["WHITESPACE"] = ("_", ("str", " "))
     label = f"opt/{sname}/{na}-{nb}/{OPT_MODS[mi] or 'n'}/{'ws' if OPT_TRIVIA[tv] else 'nows'}"
-    inputs = ["abc AB c", "xx AB", "zzCz", "z Ab", "1a", "zz1", "a b", "B", "zzAb", "zz aB b", "C", "zc", "zzab"]
+    inputs = ["abc AB c", "xx AB", "zzCz", "z Ab", "1a", "zz1", "a b", "B", "zzAb", "zz aB b", "C", "zc", "zzab", "z\u00e91Ab", "\u00b2 \u00c9b"]
     return label, rules, inputs
 
 
@@ -780,7 +808,7 @@ def alphabet(rules: dict, extra: str = "") -> list[str]:
                 chars.add(n[1])
                 chars.add(n[2])
             elif k == "builtin":
-                chars.update({"ASCII_DIGIT": "1", "ASCII_HEX_DIGIT": "f1", "ASCII_ALPHA_UPPER": "A"}.get(n[1], "aA"))
+                chars.update({"ASCII_DIGIT": "1", "ASCII_HEX_DIGIT": "f1", "ASCII_ALPHA_UPPER": "A"}.get(n[1], "aA") if n[1] in BUILTINS else BUILTIN_CHARS[n[1]])
             elif k == "newline":
                 chars.add("\n")
     chars.update(extra)
@@ -855,7 +883,7 @@ class Deriver:
             cands = [c for c in self.alpha if e[1] <= c <= e[2]] or [e[1]]
             return r.choice(cands)
         if k == "builtin":
-            return r.choice({"ASCII_DIGIT": "1", "ASCII_HEX_DIGIT": "f1a", "ASCII_ALPHA_UPPER": "A", "ASCII_ALPHA_LOWER": "ab"}.get(e[1], "aAb"))
+            return r.choice(BUILTIN_CHARS.get(e[1], "aAb"))
         if k == "any":
             return r.choice(self.alpha)
         if k == "newline":
@@ -1043,6 +1071,9 @@ CONSTRUCTS: list[tuple[str, tuple, bool]] = [
     ("seq_zero_width_tail", ("seq", [("str", "a"), ("opt", ("str", "b"))]), False),
     ("alt", ("alt", [("str", "a"), ("str", "b")]), False),
     ("alt_prefix", ("alt", [("str", "a"), ("str", "ab")]), False),
+    # choices of one-character literals that are metacharacters of the regex dialect squashed choices are compiled to
+    ("alt_regex_meta", ("alt", [("str", "["), ("str", "]"), ("str", "-"), ("str", "^"), ("str", "\\")]), False),
+    ("alt_regex_meta2", ("alt", [("str", "&"), ("str", "~"), ("str", "|"), ("str", "("), ("str", "."), ("range", "*", "+")]), False),
     ("alt_seq", ("alt", [("seq", [("ref", "n"), ("str", "b")]), ("ref", "n")]), False),
     ("opt", ("opt", ("str", "a")), False),
     ("star", ("star", ("str", "a")), False),
